@@ -18,17 +18,20 @@ CLAIMED = {
    technique='Lean 4 proof over hand model + differential correspondence (model at Q vs Python)', ref='4/C01'),
  'C02': dict(
    text='The Lean model of every analytic stiffness kernel (fk0, fk0y1y2 of plate, plate_w, cpanel, kpanel) is REGENERATED '
-        'from the .pyx source text on every run; 16 kernel-checked theorems: each generated entry equals the '
+        'from the .pyx source text on every run; 35 kernel-checked theorems: each generated entry equals the '
         'second derivative of the Donnell CLT strain energy (operator tables of Spec/Kinematics.lean) for all series indices, '
         'geometries, ABD-structured laminates, all real flag values and both domains, uniformly (abstract integrals J); and the '
         'whole matrix is symmetric: the entry the kernel formula assigns to the transposed position (roles of row and column basis '
-        'function exchanged) is the same number, so mirroring the upper triangle loses nothing. '
-        'Whole-matrix layer: the translator IR is interpreted on random panels against Panel.calc_k0(finalize=False) of the '
+        'function exchanged) is the same number, so mirroring the upper triangle loses nothing; the loop nest / dof map / skip condition of every '
+        'kernel is regenerated as a schema and proved equal to the modelled nest, so that the finalized matrix holds the Hessian at the positions of ANY '
+        'two dofs (any m, n, placement); POSITIVE SEMI-DEFINITE for every PSD laminate matrix (k0_matrix_psd_*: quadratic form = (ab/4) x double real '
+        'integral of eps^T F eps >= 0, plate / w-only / cylindrical / conical, full width and sub-interval; abd_weight_psd links the hypothesis to C01). '
+        'The translator IR is interpreted on random panels against Panel.calc_k0(finalize=False) of the '
         'running binaries (V), and an independent energy-Hessian oracle (operator tables x exact Bardell integrals) is '
         'compared with calc_k0 incl. pre-load, symmetry, PSD and sub-interval additivity (implementation arm).',
    note='Trusted: Lean kernel, Mathlib, translator (validated by V each run), operator tables, abstract J tied to C tables '
-        'by C10, Cython build not verified (V vs in-tree .so), loop nest/placement/finalize checked numerically not proved, '
-        'rounding not modelled.',
+        'by C10 (the PSD theorems take the integrals as exact real integrals of products of continuous basis functions), Cython build not verified '
+        '(V vs in-tree .so), the + fkG0(N_cte) dispatch / laminate option glue of Panel.calc_k0 checked by the oracle only, rounding not modelled.',
    technique='Lean 4 proof over model regenerated from source (translator) + translation validation + energy oracle', ref='4/C02'),
  'C03': dict(
    text='Regenerated Lean models of fkG0/fkG0y1y2 (4 models) and of the state-based fkG_num (flat, cylindrical); 39 theorems: each entry is the Hessian of the pre-stress work '
@@ -45,7 +48,8 @@ CLAIMED = {
  'C04': dict(
    text='Regenerated Lean models of fkM/fkMy1y2; 13 theorems: each of the entries equals the Hessian of the kinetic energy '
         'of a plate with through-thickness moments (h, h*delta, h(delta^2+h^2/12)) with delta = -d, i.e. the theorems compute '
-        'which reference surface the kernels use; the whole mass matrix is symmetric (transposed position = same value). The glue (which d is passed) is checked against the laminate convention by '
+        'which reference surface the kernels use; the whole mass matrix is symmetric (transposed position = same value) and positive semi-definite '
+        'for mu, h >= 0 (massW_psd: the weight is mu h [(e0-d e3)^2 + (e1-d e4)^2 + e2^2 + h^2/12 (e3^2+e4^2)]; kM_matrix_psd_* for all models). The glue (which d is passed) is checked against the laminate convention by '
         'an oracle, total mass of a rigid translation, positive definiteness on active amplitudes and frequency invariance '
         'under a move of the reference surface. A genuine defect (wrong sign passed by Panel.calc_kM) was repaired (fix: ca9efb9).',
    note='As C02; LAPACK eigh trusted for the invariance predicate.',
@@ -79,9 +83,10 @@ CLAIMED = {
    text='Lean models of all 15 penalty-connection block kernels (5 kinds x 11/12/22) REGENERATED from kC*.pyx each run; 15 theorems: '
         'each block entry equals the second derivative of kt/2 Int|jump u|^2 + kr/2 Int(jump rotation)^2 for that kind (jump operator '
         'tables in Spec/Interface.lean: edge-to-edge along x or y, base-to-perpendicular-flange along x or y with the axis swap, '
-        'face-to-face with thickness offset) for all indices, flags, geometries, positions. V: IR of every block vs the running kernels; '
+        'face-to-face with thickness offset) for all indices, flags, geometries, positions; conn_psd_*: the symmetric completion [[k11,k12],[k12^T,k22]] '
+        'is positive semi-definite for kt, kr >= 0 over the reals (any finite family of dofs of the two panels). V: IR of every block vs the running kernels; '
         'implementation arm: mismatch-energy oracle vs PanelAssembly.get_k0_conn for both panel orders, symmetry, PSD; calc_kt_kr '
-        'symmetric/linear. A genuine defect (coupling block dropped when p1 follows p2) was repaired.',
+        'symmetric/linear; model arm of the search: translated block kernels placed and mirrored like get_k0_conn vs the oracle (source as written). A genuine defect (coupling block dropped when p1 follows p2) was repaired.',
    note='As C02; interface length/footprint shared by both panels (as the kernels assume); get_k0_conn glue checked by oracle on '
         'explored assemblies; kCLTxycte has no kernel module in the tree.',
    technique='Lean 4 proof over regenerated model + translation validation + energy oracle', ref='4/C12'),
@@ -90,10 +95,13 @@ CLAIMED = {
         'entries section by section (k0, kG0, kM) and are additive in the x-integrals (so equal-radius sections telescope); '
         'cylindrical = plate + X/r + Y/r^2 exactly (kG0, kM identical); w-only model = w-block of the full plate (k0, kG0, kA, cA); '
         'exchange of x and y gives permutation-congruent k0, kG0, kM; geometric similarity scales k0 by e*s, kG0 by 1, kM by q*s^3. '
-        'Implementation arm: each pair of descriptions run through the public API (matrices entry-wise, eigenvalues via LAPACK), '
-        'incl. numerically integrated vs analytic matrices at the undeformed state.',
-   note='As C02; eigenvalue statements follow from the matrix congruences (not formalised as spectra); numeric-vs-analytic kernel '
-        'pair is exploration-level until the numerical kernels are translated.',
+        'Implementation arm: each pair of descriptions run through the public API (matrices entry-wise - the axis exchange as the explicit permutation '
+        'of the amplitudes - and eigenvalues via LAPACK; with and without the force_orthotropic_laminate option, reference surface offsets of several '
+        'thicknesses, mass / aerodynamic matrices of the w-only model), incl. numerically integrated vs analytic matrices at the undeformed state; '
+        'model arm of the search: translated conical kernels at zero angle vs translated cylindrical kernels (source as written).',
+   note='As C02; eigenvalue statements follow from the matrix congruences (not formalised as spectra); the numeric-vs-analytic kernel '
+        'pair at the undeformed state is a theorem of C08 (kL_at_zero_eq_k0_*) at one integration point, summed by the exactness of the rule (C10); '
+        'here it is compared on the implementation, also with the force_orthotropic_laminate option.',
    technique='Lean 4 proof over regenerated models + pairwise implementation comparison', ref='4/C14'),
  'C15': dict(
    text='Decided by proof only in its algebraic half: the dof map is injective and embeds the (m,n) amplitudes into every larger (m\',n\') '
